@@ -260,6 +260,8 @@ def run_unit(u, repo, tier, seed, relock=False, prop=None):
         res["wall_s"] = time.time() - t0
         return res
     par = u.get("parallel", 6)
+    if tier == "thorough":
+        par = u.get("parallel_thorough", par)
     with cf.ThreadPoolExecutor(max_workers=par) as ex:
         results = list(ex.map(lambda h: run_harness(dst, h, tier, extra), hs))
     lock_path = os.path.join(u["dir"], "obligations.lock")
